@@ -264,6 +264,7 @@ func c05Exec(ctx *core.Ctx, c c05Case) {
 		}
 		s.MaxMessageBytes = limitBytes
 	})
+	serverKnobs(rig, fmt.Sprintf("%q|%v|%v|%s|%s|%s", c.Msg, c.Chunks, c.ExtraLast, c.Seg, c.Mode, c.Refuse))
 	lineLimit := rig.Srv.MaxLineLength
 	rig.BE.H.Rcpt = func(sess int, to string, o *smtp.RcptOptions) error {
 		if strings.HasPrefix(to, "rej") {
